@@ -672,6 +672,142 @@ def check_patterns(ctx):
                               {'kind': 'pattern', 'case': dict(c, texts=[t]), 'text': t})
 
 
+# ------------------------------------------------------------------ (5) facet-restricted lists at element / attribute sites under decode options
+LIST_POOLS = {
+    'xs:date': [('2020-01-01', 1), ('2020-01-02', 2), ('2021-12-31', 3)],
+    'xs:decimal': [('1.0', 1), ('1', 1), ('1.00', 1), ('2.5', 2), ('2.50', 2), ('0.1', 3), ('0.10', 3)],
+    'xs:QName': [('xs:a', 1), ('x2:a', 1), ('xs:b', 2), ('p:a', 3)],
+    'xs:hexBinary': [('0A', 1), ('0a', 1), ('FF', 2), ('ff', 2), ('00', 3)],
+    'xs:boolean': [('true', 1), ('1', 1), ('false', 2), ('0', 2)],
+    'xs:int': [('1', 1), ('01', 1), ('+2', 2), ('2', 2), ('3', 3)],
+}
+LIST_OPTS = [{}, {'datetime_types': True, 'binary_types': True}, {'decimal_type': str}, {'decimal_type': float},
+             {'decimal_type': str, 'datetime_types': True}]
+LIST_NS = 'xmlns:xs="http://www.w3.org/2001/XMLSchema" xmlns:x2="http://www.w3.org/2001/XMLSchema" xmlns:p="urn:p"'
+
+
+def list_schema():
+    """per item type T: L = list(T), LE = L restricted by enumeration {v1 v2, v2, v3 v1 v1}, LN = LE restricted by
+    minLength 2 (two levels), LL = L restricted by length 2; an element and an attribute of each"""
+    defs, els, atts = [], [], []
+    for i, (ty, pl) in enumerate(LIST_POOLS.items()):
+        lex = {}
+        for lx, v in pl:
+            lex.setdefault(v, lx)
+        defs.append('<xs:simpleType name="L%d"><xs:list itemType="%s"/></xs:simpleType>' % (i, ty))
+        defs.append('<xs:simpleType name="LE%d"><xs:restriction base="L%d"><xs:enumeration value="%s %s"/><xs:enumeration value="%s"/>'
+                    '<xs:enumeration value="%s %s %s"/></xs:restriction></xs:simpleType>' % (i, i, lex[1], lex[2], lex[2], lex[max(lex)], lex[1], lex[1]))
+        defs.append('<xs:simpleType name="LN%d"><xs:restriction base="LE%d"><xs:minLength value="2"/></xs:restriction></xs:simpleType>' % (i, i))
+        defs.append('<xs:simpleType name="LL%d"><xs:restriction base="L%d"><xs:length value="2"/></xs:restriction></xs:simpleType>' % (i, i))
+        for k in ('LE', 'LN', 'LL'):
+            els.append('<xs:element name="e%s%d" type="%s%d" minOccurs="0"/>' % (k, i, k, i))
+            atts.append('<xs:attribute name="a%s%d" type="%s%d"/>' % (k, i, k, i))
+    return ('<xs:schema xmlns:xs="http://www.w3.org/2001/XMLSchema" xmlns:p="urn:p">%s<xs:element name="r"><xs:complexType><xs:sequence>%s'
+            '</xs:sequence>%s</xs:complexType></xs:element></xs:schema>' % (''.join(defs), ''.join(els), ''.join(atts)))
+
+
+def list_reference(kind, ids, top=3):
+    enum = ids in ([1, 2], [2], [top, 1, 1])
+    return {'LE': enum, 'LN': enum and len(ids) >= 2, 'LL': len(ids) == 2}[kind]
+
+
+def list_expected(ty, lex, opts):
+    """the decoded item as the decode options prescribe"""
+    if ty == 'xs:date':
+        return 'Date' if opts.get('datetime_types') else lex
+    if ty == 'xs:decimal':
+        d = decimal.Decimal(lex)
+        return d if opts.get('decimal_type') is None else opts['decimal_type'](d)
+    if ty == 'xs:QName':
+        return lex
+    if ty == 'xs:hexBinary':
+        return 'HexBinary' if opts.get('binary_types') else lex.upper()
+    if ty == 'xs:boolean':
+        return lex in ('true', '1')
+    return int(lex)
+
+
+def subject_lists(case):
+    import xmlschema
+    key = 'lists' + case['version']
+    if key not in _SCH:
+        cls = xmlschema.XMLSchema11 if case['version'] == '1.1' else xmlschema.XMLSchema10
+        _SCH[key] = cls(list_schema())
+    s = _SCH[key]
+    out = []
+    for site, name, text in case['docs']:
+        xml = ('<r %s %s="%s"/>' % (LIST_NS, name, text)) if site == 'attr' else '<r %s><%s>%s</%s></r>' % (LIST_NS, name, text, name)
+        r = {'xml': xml, 'runs': []}
+        try:
+            r['is_valid'] = s.is_valid(xml)
+            r['iter_errors'] = len(list(s.iter_errors(xml)))
+            for opts in LIST_OPTS:
+                data, errs = s.decode(xml, validation='lax', **opts)
+                val = (data or {}).get(('@' if site == 'attr' else '') + name) if isinstance(data, dict) else data
+                strict = 'ok'
+                try:
+                    s.decode(xml, **opts)
+                except xmlschema.XMLSchemaValidationError:
+                    strict = 'raised'
+                r['runs'].append({'errors': len(errs), 'strict': strict,
+                                  'value': [x if isinstance(x, (str, int, float, bool, decimal.Decimal)) else type(x).__name__.rstrip('0123456789') for x in val]
+                                  if isinstance(val, list) else repr(val)})
+        except Exception as e:  # noqa
+            r['exc'] = common.exc_class(e) + ': ' + str(e)[:120]
+        out.append(r)
+    return out
+
+
+def check_lists(ctx):
+    rng = ctx.rng
+    cases = []
+    for version in ('1.0', '1.1'):
+        docs = []
+        for i, (ty, pl) in enumerate(LIST_POOLS.items()):
+            for kind in ('LE', 'LN', 'LL'):
+                picks = [[0], [0, 1]] + [[rng.randrange(len(pl)) for _ in range(rng.choice([1, 2, 2, 3]))] for _ in range(6 if ctx.quick() else 60)]
+                # the enumerated values in other lexical forms
+                byid = {}
+                for k, (_lx, v) in enumerate(pl):
+                    byid.setdefault(v, []).append(k)
+                for ids in ([1, 2], [2], [max(byid), 1, 1]):
+                    picks.append([rng.choice(byid[v]) for v in ids])
+                for pk in picks:
+                    sep = rng.choice([' ', '  ', ' \n '])
+                    docs.append((rng.choice(['attr', 'elem']), kind, i, pk, sep))
+        cases.append({'version': version, 'spec': docs,
+                      'docs': [(site, ('a' if site == 'attr' else 'e') + kind + str(i), sep.join(list(LIST_POOLS.values())[i][k][0] for k in pk))
+                               for site, kind, i, pk, sep in docs]})
+    impl = common.pool_map(subject_lists, cases)
+    for c, o in zip(cases, impl):
+        if isinstance(o, dict):
+            ctx.violation('list subject failed: %s' % o.get('harness_exception'), {'kind': 'lists'}, no_input=True)
+            continue
+        for (site, kind, i, pk, _sep), r in zip(c['spec'], o):
+            ty, pl = list(LIST_POOLS.items())[i]
+            ids = [pl[k][1] for k in pk]
+            want = list_reference(kind, ids, max(v for _l, v in pl))
+            ctx.count(('lists', c['version'], r['xml']), nontrivial=True)
+            ctx.dist('restricted lists', '%s %s %s' % (ty, kind, 'valid' if want else 'invalid'))
+            rep = {'kind': 'lists', 'xml': r['xml'], 'xsd': list_schema(), 'version': c['version'], 'impl': r}
+            what = '%s of %s (XSD %s) %s' % ({'LE': 'enumerated list', 'LN': 'enumerated list with minLength 2', 'LL': 'list with length 2'}[kind], ty, c['version'], r['xml'])
+            if 'exc' in r:
+                ctx.violation('%s: raised %s' % (what, r['exc']), rep)
+                continue
+            if r['is_valid'] != want or (r['iter_errors'] == 0) != want:
+                ctx.violation('%s: is_valid=%s, iter_errors reports %d error(s), the value is %s the facets' % (what, r['is_valid'], r['iter_errors'], 'within' if want else 'outside'), rep)
+                continue
+            for opts, run in zip(LIST_OPTS, r['runs']):
+                if (run['errors'] == 0) != want or (run['strict'] == 'ok') != want:
+                    ctx.violation('%s: decode with %s reports %d error(s) / strict decode %s, while the value is %s the facets (is_valid=%s)'
+                                  % (what, opts or 'default options', run['errors'], run['strict'], 'within' if want else 'outside', r['is_valid']), rep)
+                    break
+                exp = [list_expected(ty, pl[k][0], opts) for k in pk]
+                if run['value'] != exp or [type(x) for x in run['value']] != [type(x) for x in exp]:
+                    ctx.violation('%s: decode with %s gives %r, the options prescribe %r' % (what, opts or 'default options', run['value'], exp), rep)
+                    break
+
+
 def gen_roundtrip(ctx):
     rng = ctx.rng
     cases = []
@@ -691,11 +827,14 @@ def run(ctx):
                 'seeded single-code-point mutations (pool with non-ASCII digits, "_", NBSP, tab); seeded restriction chains '
                 '(1-2 levels; bounds, digits, length family, enumeration, whiteSpace), lists and unions x candidate values; '
                 'all built-in atomic types: decode/encode/decode round trip under three option sets and reference lexical '
-                'spaces for float/double/hexBinary/gYear/gMonth/gDay/time/duration; non-trivial = non-empty text; distinct by '
+                'spaces for float/double/hexBinary/gYear/gMonth/gDay/time/duration; lists of date / decimal / QName / hexBinary / boolean / int '
+                'restricted by enumeration, enumeration + minLength, length at element and attribute sites: verdict of is_valid / '
+                'iter_errors / lax and strict decode under five option sets and the decoded items the options prescribe; non-trivial = non-empty text; distinct by '
                 '(type, version, text)')
     evaluate(ctx, cases)
     check_roundtrip(ctx, gen_roundtrip(ctx))
     check_patterns(ctx)
+    check_lists(ctx)
     ctx.assumptions = ['value spaces of float/double/duration/dateTime/g* /binary/anyURI/QName are not modelled: lexical validity '
                        '(reference regular expressions) and the round trip only',
                        'pattern facets are checked against Python re on a small dialect (reference in the harness, not proved)',
@@ -705,6 +844,8 @@ def run(ctx):
 def replay(ctx, case):
     if case.get('kind') == 'pattern':
         check_patterns(ctx)
+    elif case.get('kind') == 'lists':
+        check_lists(ctx)
     elif case.get('kind') == 'roundtrip':
         check_roundtrip(ctx, [case['case']])
     else:
